@@ -390,11 +390,20 @@ def o_to_pgl(A, bilinear_form=np.diag([-1, 1, 1])):
     d = np.sqrt(np.abs(A_d[2, 2]))
 
     # TODO: make this vector-safe, right now the docstring is a lie
+
+    # fix the signs within each pair (a, b) and (c, d) using the
+    # mixed monomial coefficients...
     if A_d[0][1] < 0:
         b = b * -1
-    if A_d[1][0] < 0:
+    if A_d[2][1] < 0:
         c = c * -1
-    if A_d[1][2] * A_d[0][1] < 0:
+
+    # ...and then the relative sign of the two pairs. At least one of
+    # the three terms below is nonzero for an invertible matrix.
+    relative_sign = (A_d[1][0] * a * c + A_d[1][2] * b * d +
+                     2 * A_d[1][1] * (a * d + b * c))
+    if relative_sign < 0:
+        c = c * -1
         d = d * -1
 
     # sl2_irrep orders the basis of the symmetric square as (e2^2,
